@@ -1313,3 +1313,29 @@ class FnEval:
                 hi = min(hi, ghi)
         # multi-pred join points (e.g. `a || b` lowering): take for each pred the fact holding there
         return (lo, hi)
+
+
+class SuccCtx:
+    """Memoised 'success implies length' summaries (bottom-up over the acyclic call graph)."""
+
+    def __init__(self, facts):
+        self.f = facts
+        self.memo = {}
+        self.busy = set()
+
+    def succ_len(self, fid):
+        if fid in self.memo:
+            return self.memo[fid]
+        if fid in self.busy:
+            return {}
+        fn = self.f.fns.get(fid)
+        if fn is None:
+            return {}
+        self.busy.add(fid)
+        try:
+            from .mir import Body
+            r = FnEval(self.f, Body(fn), self).success_lengths()
+        finally:
+            self.busy.discard(fid)
+        self.memo[fid] = r
+        return r
